@@ -759,12 +759,14 @@ def model_constants(tree, oracle, scans, boot):
 # the check
 # ----------------------------------------------------------------------------------------------------------------
 
-def _cfg(maximports, invariants=(), trace_spec=False):
-    s = "SPECIFICATION %s\nCONSTANTS\n  MaxImports = %d\n" % ("TraceSpec" if trace_spec else "Spec", maximports)
+def _cfg(maximports, atomic, invariants=(), constraint=None, trace_spec=False):
+    s = "SPECIFICATION %s\nCONSTANTS\n  MaxImports = %d\n  Atomic = %s\n" % (
+        "TraceSpec" if trace_spec else "Spec", maximports, "TRUE" if atomic else "FALSE")
     for i in invariants:
         s += "INVARIANT %s\n" % i
-    s += "CONSTRAINT %s\nCHECK_DEADLOCK FALSE\n" % ("TraceOK" if trace_spec else "Emit")
-    return s
+    if constraint:
+        s += "CONSTRAINT %s\n" % constraint
+    return s + "CHECK_DEADLOCK FALSE\n"
 
 
 def _run_order(order):
@@ -774,36 +776,73 @@ def _run_order(order):
 
 
 def _fail_signature(st):
-    msg = st["emsg"].replace(env.REPO, "<repo>")
-    msg = re.sub(r"\(/[^)]*\)", "(...)", msg)
+    msg = re.sub(r" \(/[^)]*\)", "", st["emsg"]).replace(env.REPO, "<repo>")
     return "%s: %s" % (st["etype"], msg)
 
 
 def _skippable(m, st):
     """a test module that needs an optional third-party package which is not installed"""
-    return (is_test_module(m) and st["etype"] in ("ImportError", "ModuleNotFoundError") and st["ename"]
-            and not st["ename"].startswith(PKG) and not st["stdlib"])
+    return bool(is_test_module(m) and st["etype"] in ("ImportError", "ModuleNotFoundError") and st["ename"]
+                and not st["ename"].startswith(PKG) and not st["stdlib"])
 
 
-def _events(run):
+def _starts(st):
+    return [x for x in st["starts"] if x == PKG or x.startswith(PKG + ".")]
+
+
+def _events(run, atomic):
     evs = [{"ev": "Boot"}]
     for st in run["steps"]:
+        if atomic:
+            evs.append({"ev": "ImportAll", "m": st["m"], "order": _starts(st), "loaded": st["loaded"], "bound": st["bound"]})
+            continue
         evs.append({"ev": "Import", "m": st["m"]})
-        for x in st["starts"]:
-            if x == PKG or x.startswith(PKG + "."):
-                evs.append({"ev": "Start", "x": x})
+        for x in _starts(st):
+            evs.append({"ev": "Start", "x": x})
         evs.append({"ev": "Done", "loaded": st["loaded"], "bound": st["bound"]})
     return evs
 
 
+class _Env:
+    """environment variables read by Imports.tla through IOEnv, also for the TLC runs started by trace.validate"""
+
+    def __init__(self, **kw):
+        self.kw = {k: str(v) for k, v in kw.items()}
+
+    def __enter__(self):
+        self.old = {k: os.environ.get(k) for k in self.kw}
+        os.environ.update(self.kw)
+
+    def __exit__(self, *a):
+        for k, v in self.old.items():
+            if v is None:
+                os.environ.pop(k, None)
+            else:
+                os.environ[k] = v
+
+
+_T0 = [0.0]
+
+
+def _lap(what):
+    import time
+    now = time.time()
+    if os.environ.get("VF_TIMING"):
+        print("  [c01 %6.1fs] %s" % (now - _T0[0], what))
+
+
 def run_c01(ctx):
+    import time
+    _T0[0] = time.time()
     tree = Tree(env.REPO)
     if not tree.mods:
         raise TlcError("no ioflo modules found under %s" % env.REPO)
     oracle = Oracle()
-    boot = _bare(_CHILD, [""]) if False else _bare(_PRELUDE + "print('VFOUT ' + repr({'boot': sorted(_boot), 'bootbound': sorted(_bootb)}))", [])
+    boot = _bare(_PRELUDE + "print('VFOUT ' + repr({'boot': sorted(_boot), 'bootbound': sorted(_bootb)}))", [])
     scans = extract(tree, oracle)
+    _lap("extracted")
     consts = model_constants(tree, oracle, scans, boot)
+    _lap("constants")
     for sc in scans.values():
         for n in sc.notes:
             ctx.note(n)
@@ -813,18 +852,27 @@ def run_c01(ctx):
     nstm = sum(len(b) for b in consts["body"].values())
     ctx.extra.update({"ioflo_modules": len(tree.mods), "model_statements": nstm, "external_targets": len(consts["ext"]),
                       "boot_modules": len(consts["boot"])})
+    rng = random.Random(ctx.seed)
 
-    # ---- phase 1: every Boot --Import(m)--> edge: model table and real replay -----------------------------------
-    consts["candidates"] = tree.mods
-    cj = os.path.join(work, "imports1.json")
-    with open(cj, "w") as f:
-        json.dump(consts, f)
+    def write_consts(label, cand, extra=None):
+        c = dict(consts)
+        c["candidates"] = list(cand)
+        if extra:
+            c.update(extra)
+        pth = os.path.join(work, "imports-%s.json" % label)
+        with open(pth, "w") as f:
+            json.dump(c, f)
+        return pth
+
+    # ---- phase 1: every Boot --Import(m)--> edge: model table and real replay ---------------------------------------
     edges = os.path.join(work, "edges")
     os.makedirs(edges, exist_ok=True)
-    res = tlc.run("Imports", _cfg(1, ["NoFailure"]), spec_dir=SPEC_DIR, extra_env={"IMPORTS_JSON": cj, "EDGE_DIR": edges, "CLOSURE_JSON": cj},
-                  extra_args=["-continue"], tag="c01edges")
-    ctx.add_model(res, "Imports/boot-edges", {"MaxImports": 1, "modules": len(tree.mods)})
-    tlc.require_coverage(res, ["Import", "Start", "LoadExt", "Finish", "Done"], "Imports/boot-edges")
+    cj = write_consts("edges", tree.mods)
+    res = tlc.run("Imports", _cfg(1, True, ["NoFailure"], "Emit"), spec_dir=SPEC_DIR,
+                  extra_env={"IMPORTS_JSON": cj, "EDGE_DIR": edges, "CLOSURE_JSON": cj}, extra_args=["-continue"], tag="c01edges")
+    ctx.add_model(res, "Imports/boot-edges", {"MaxImports": 1, "Atomic": True, "modules": len(tree.mods)})
+    tlc.require_coverage(res, ["ImportAll"], "Imports/boot-edges")
+    _lap("tlc boot edges")
     model = {}
     for m in tree.mods:
         p = os.path.join(edges, m + ".json")
@@ -833,6 +881,7 @@ def run_c01(ctx):
         with open(p) as f:
             model[m] = json.load(f)
     runs = dict(zip(tree.mods, _pmap(lambda m: _run_order([m]), tree.mods)))
+    _lap("real boot edges")
     for m, r in runs.items():
         if r["file"] and not r["file"].startswith(env.REPO):
             raise TlcError("bare child imported ioflo from %s instead of %s" % (r["file"], env.REPO))
@@ -844,11 +893,12 @@ def run_c01(ctx):
             if mo["res"] != "ok":
                 raise TlcError("the ast-derived model predicts that `import %s` fails (%s) but it succeeds in a bare interpreter: "
                                "the extractor in vf/families/imports.py over-approximates" % (m, mo["why"]))
-            if set(mo["loaded"]) != set(st["loaded"]) or set(mo["bound"]) != set(st["bound"]):
+            if set(mo["loaded"]) != set(st["loaded"]) or set(mo["bound"]) != set(st["bound"]) or list(mo["order"]) != _starts(st):
                 dl = sorted(set(mo["loaded"]) ^ set(st["loaded"]))[:8]
                 db = sorted(set(mo["bound"]) ^ set(st["bound"]))[:8]
-                raise TlcError("model and bare interpreter disagree on what `import %s` loads/binds (loaded differs on %s, bound on %s): "
-                               "the ast-derived constants are incomplete" % (m, dl, db))
+                do = [(a, b) for a, b in zip(list(mo["order"]) + [""] * 400, _starts(st) + [""]) if a != b][:2]
+                raise TlcError("model and bare interpreter disagree on what `import %s` loads/binds (loaded differs on %s, bound on %s, "
+                               "load order at %s): the ast-derived constants are incomplete" % (m, dl, db, do))
             good.append(m)
             continue
         if _skippable(m, st):
@@ -865,55 +915,60 @@ def run_c01(ctx):
                                extra={"modules_failing": ms, "model_prediction": model[ms[0]]["res"], "model_why": model[ms[0]].get("why", "")}))
     for m, pkg in skipped:
         ctx.note("skipped %s: test module needs the optional third-party package %r which is not installed (ImportError of a non-ioflo module)" % (m, pkg))
-    ctx.add_validated(len(tree.mods), {"edge": "Boot --Import(%s)-->" % good[len(good) // 2] if good else "", "loaded_delta": len(model[good[len(good) // 2]]["loaded"]) if good else 0})
+    mid = good[len(good) // 2] if good else None
+    ctx.add_validated(len(tree.mods), {"edge": "Boot --Import(%s)-->" % mid, "ioflo_modules_started": model[mid]["order"][:6] if mid else [],
+                                       "loaded_delta": len(model[mid]["loaded"]) if mid else 0})
 
-    # ---- phase 2: orders ---------------------------------------------------------------------------------------------
+    # ---- phase 2: orders -------------------------------------------------------------------------------------------------
     nacc = nord = 0
     if len(good) >= 2:
         closure = {m: {"loaded": model[m]["loaded"], "bound": model[m]["bound"]} for m in good}
-        rng = random.Random(ctx.seed)
-        c2 = dict(consts)
-        c2["closure"] = closure
         clj = os.path.join(work, "closure.json")
         with open(clj, "w") as f:
             json.dump({"closure": closure}, f)
-        # (a) all ordered pairs over all good modules (quick: over a seeded subset + every package root)
-        runs2 = []
-        npair = ctx.pick(40, len(good))
-        cand = list(good) if npair >= len(good) else sorted(set(rng.sample(good, npair)))
-        runs2.append(("pairs", cand, 2))
-        ntrip = ctx.pick(9, 24)
-        runs2.append(("triples", sorted(rng.sample(good, min(ntrip, len(good)))), 3))
-        nquad = ctx.pick(6, 10)
-        runs2.append(("quads", sorted(rng.sample(good, min(nquad, len(good)))), 4))
-        for (label, cand, depth) in runs2:
-            c2["candidates"] = cand
-            cj2 = os.path.join(work, "imports-%s.json" % label)
-            with open(cj2, "w") as f:
-                json.dump(c2, f)
-            r2 = tlc.run("Imports", _cfg(depth, ["NoFailure", "OrderIndependent"]).replace("CONSTRAINT Emit\n", ""), spec_dir=SPEC_DIR,
+
+        def model_run(label, cand, depth, atomic, invs, need):
+            cj2 = write_consts(label, cand)
+            r2 = tlc.run("Imports", _cfg(depth, atomic, invs), spec_dir=SPEC_DIR, coverage=bool(need),
                          extra_env={"IMPORTS_JSON": cj2, "EDGE_DIR": edges, "CLOSURE_JSON": clj}, tag="c01" + label)
-            ctx.add_model(r2, "Imports/" + label, {"MaxImports": depth, "candidates": len(cand)})
-            if not r2.ok:
-                req = []
-                if r2.trace:
-                    req = list(r2.trace[-1][1].get("req", ()))
-                real = _run_order(req) if req else None
-                last = real["steps"][-1] if real else None
-                if r2.error_name == "NoFailure" and last is not None and last["ok"]:
-                    raise TlcError("the model predicts a failure for the order %s which succeeds in a bare interpreter" % (req,))
-                ctx.diverge(Divergence("C01", "model", r2.error_name or r2.error, "Imports/" + label,
-                                       "order %s: %s" % (",".join(req), _fail_signature(last) if last and not last["ok"] else "result depends on the order"),
-                                       steps=[{"action": a, "state": {"req": s.get("req"), "res": s.get("res")}} for a, s in r2.trace][-12:]))
+            ctx.add_model(r2, "Imports/" + label, {"MaxImports": depth, "Atomic": atomic, "candidates": len(cand)})
+            _lap("tlc " + label)
+            if r2.ok:
+                if need:
+                    tlc.require_coverage(r2, need, "Imports/" + label)
+                elif r2.distinct < 1 + len(cand) * (len(cand) - 1):
+                    raise TlcError("vacuous model run (Imports/%s): %d states for %d candidates" % (label, r2.distinct, len(cand)))
+                return True
+            req = list(r2.trace[-1][1].get("req", ())) if r2.trace else []
+            real = _run_order(req) if req else None
+            last = real["steps"][-1] if real else None
+            if r2.error_name == "NoFailure" and last is not None and last["ok"]:
+                raise TlcError("the model predicts a failure for the order %s which succeeds in a bare interpreter" % (req,))
+            ctx.diverge(Divergence("C01", "model", r2.error_name or r2.error, "Imports/" + label,
+                                   "order %s: %s" % (",".join(req), _fail_signature(last) if last and not last["ok"] else "what is loaded/bound depends on the order"),
+                                   steps=[{"action": a, "state": {"req": s.get("req"), "res": s.get("res"), "why": s.get("why")}} for a, s in r2.trace][-12:]))
+            return False
+
+        # (a) small-step model: every observable step is an action (vacuity guard over the small-step actions)
+        nsmall, dsmall = ctx.pick((5, 1), (10, 2))
+        ok = model_run("small-step", sorted(rng.sample(good, min(nsmall, len(good)))), dsmall, False,
+                       ["NoFailure", "OrderIndependent", "WellFormed"], ["Import", "Start", "LoadExt", "Finish", "Done"])
+        # (b) atomic imports: every order of up to 4 imports over a seeded subset; thorough: all ordered pairs of all modules
+        #     and all triples over a larger subset
+        plans = [("orders-upto-4", ctx.pick(8, 13), 4)]
+        if not ctx.quick:
+            plans += [("all-pairs", len(good), 2), ("triples", 32, 3)]
+        for (label, n, depth) in plans:
+            if not ok:
                 break
-        # (b) seeded orders executed for real, validated by TLC against ImportsTrace.tla
-        norders = ctx.pick(60, 500)
-        orders = []
-        for i in range(norders):
-            k = 2 + (i % 3)
-            orders.append(rng.sample(good, min(k, len(good))))
+            cand = list(good) if n >= len(good) else sorted(rng.sample(good, n))
+            ok = model_run(label, cand, depth, True, ["NoFailure", "OrderIndependent"], None)
+        # (c) seeded orders executed for real, validated by TLC against ImportsTrace.tla
+        norders = ctx.pick(48, 500)
+        orders = [rng.sample(good, min(2 + (i % 3), len(good))) for i in range(norders)]
         real = _pmap(_run_order, orders)
-        traces, idx = [], []
+        _lap("real orders")
+        okruns = []
         for i, r in enumerate(real):
             bad = [st for st in r["steps"] if not st["ok"]]
             if bad:
@@ -925,56 +980,40 @@ def run_c01(ctx):
                                        actual="%s at %s:%s" % (_fail_signature(st), st["where"], st["line"]),
                                        extra={"order": r["order"]}))
                 continue
-            # order independence observed on the real interpreter as well
-            want_l, want_b = set(), set()
-            for st in r["steps"]:
-                want_l |= set(model[st["m"]]["loaded"])
-                want_b |= set(model[st["m"]]["bound"])
-                if set(st["loaded"]) != want_l or set(st["bound"]) != want_b:
-                    ctx.diverge(Divergence("C01", "state-mismatch", "Import", "loaded" if set(st["loaded"]) != want_l else "bound",
-                                           "order %s: after `import %s` the loaded/bound modules differ from the union of the cold closures: %s"
-                                           % (",".join(r["order"]), st["m"], sorted((set(st["loaded"]) ^ want_l) | (set(st["bound"]) ^ want_b))[:6]),
-                                           extra={"order": r["order"]}))
-                    break
-            traces.append(_events(r))
-            idx.append(i)
-        # the single imports are validated as recorded executions too
-        for m in good:
-            traces.append(_events(runs[m]))
-            idx.append(-1)
-        c3 = dict(consts)
-        c3["candidates"] = tree.mods
-        cj3 = os.path.join(work, "imports-trace.json")
-        with open(cj3, "w") as f:
-            json.dump(c3, f)
-        os.environ["IMPORTS_JSON"] = cj3
-        os.environ["EDGE_DIR"] = edges
-        os.environ["CLOSURE_JSON"] = clj
-        try:
-            out = trace.validate("ImportsTrace", _cfg(1000, [], trace_spec=True), SPEC_DIR, traces, batch=40)
-        finally:
-            for k in ("IMPORTS_JSON", "EDGE_DIR", "CLOSURE_JSON"):
-                os.environ.pop(k, None)
-        ctx.states += out.states
-        ctx.transitions += out.generated
-        nacc = len(out.accepted)
+            okruns.append(r)
         nord = len(orders)
-        if out.rejected or out.model_errors:
-            i, pref = sorted(out.rejected.items())[0] if out.rejected else (out.model_errors[0][0], 0)
-            ev = traces[i][pref] if 0 <= pref < len(traces[i]) else {}
-            ev = {k: (v if not isinstance(v, list) else v[:6]) for k, v in ev.items()}
-            raise TlcError("a recorded import execution is not a behaviour of Imports.tla with the ast-derived constants "
-                           "(trace %d, event %d: %r; imports %s): the extractor in vf/families/imports.py misses or invents a dependency"
-                           % (i, pref + 1, ev, [e["m"] for e in traces[i] if e["ev"] == "Import"]))
-        ctx.add_validated(nacc, {"order": orders[0], "events": [e if e["ev"] != "Done" else {"ev": "Done", "loaded": len(e["loaded"])} for e in traces[0]][:12]})
+        # (the single imports were compared with the model edge by edge above; some are also validated step by step)
+        nmicro = ctx.pick(10, 60)
+        micro = okruns[:nmicro] + [runs[m] for m in rng.sample(good, min(ctx.pick(6, 30), len(good)))]
+        cj3 = write_consts("trace", tree.mods)
+        for (label, rs, atomic, batch) in (("atomic", okruns, True, max(4, -(-len(okruns) // env.NCPU))),
+                                           ("small-step", micro, False, max(2, -(-len(micro) // env.NCPU)))):
+            if not rs:
+                continue
+            traces = [_events(r, atomic) for r in rs]
+            with _Env(IMPORTS_JSON=cj3, EDGE_DIR=edges, CLOSURE_JSON=clj):
+                out = trace.validate("ImportsTrace", _cfg(1000, atomic, [], "TraceOK", trace_spec=True), SPEC_DIR, traces, batch=batch)
+            ctx.states += out.states
+            ctx.transitions += out.generated
+            _lap("validated " + label)
+            if out.rejected or out.model_errors:
+                i, pref = sorted(out.rejected.items())[0] if out.rejected else (out.model_errors[0][0], 0)
+                ev = traces[i][pref] if 0 <= pref < len(traces[i]) else {}
+                ev = {k: (v if not isinstance(v, list) else v[:6]) for k, v in ev.items()}
+                raise TlcError("a recorded import execution is not a behaviour of Imports.tla (%s) with the ast-derived constants "
+                               "(trace %d, event %d: %r; imports %s): the extractor in vf/families/imports.py misses or invents a dependency"
+                               % (label, i, pref + 1, ev, rs[i]["order"]))
+            nacc += len(out.accepted)
+            ctx.add_validated(len(out.accepted), {"validated": label, "order": rs[0]["order"],
+                                                  "events": [{k: (v if not isinstance(v, list) else len(v)) for k, v in e.items()} for e in traces[0][:10]]})
     else:
         ctx.note("fewer than two modules import cold: orders are not explored")
     ctx.exhaustive = False
     ctx.rule = ("every Boot --Import(m)--> edge of Imports.tla for all %d ioflo modules replayed as `python -I -c 'import m'` in a bare "
-                "child (outcome, loaded and bound deltas compared); TLC explores all ordered pairs / triples / quadruples over seeded "
-                "candidate sets with NoFailure and OrderIndependent; seeded orders of 2-4 modules executed in bare children and their "
-                "recorded load-start / sys.modules traces validated by TLC against ImportsTrace.tla; distinct = modules + orders"
-                % len(tree.mods))
+                "child (outcome, ioflo load order, loaded and bound deltas compared); TLC explores all ordered pairs of all modules and all "
+                "triples / quadruples over seeded subsets (NoFailure, OrderIndependent), and the small-step model over a seeded subset; "
+                "seeded orders of 2-4 modules executed in bare children and their recorded load-start / sys.modules traces validated "
+                "by TLC against ImportsTrace.tla; distinct = modules + orders" % len(tree.mods))
     ctx.extra.update({"evaluations": len(tree.mods) + nord, "distinct_nontrivial": len(good) + nord, "modules_ok": len(good),
                       "modules_skipped_third_party": [m for m, _ in skipped], "orders_executed": nord, "traces_accepted": nacc})
     ctx.assume("constants of the model come from ast (ioflo) and from bare-child measurements (non-ioflo closures, Boot); recorded "
